@@ -13,7 +13,7 @@ from vlib.stubs import Obj
 
 MAXS = P.get("maxs", 2)
 UE = P.get("unicode_escape", False)
-SIGMA = ["a", "/", "~", "0", "1", "+", "-", "#", "_", " ", "é", "²", "\ud800", "١", "\U0001F600", "\x01", "2", "'", '"', "１", "\t"][: P.get("sigma", 21)]
+SIGMA = ["a", "/", "~", "0", "1", "+", "-", "#", "_", " ", "é", "²", "\n", "\ud800", "١", "\U0001F600", "\x01", "2", "'", '"', "１", "\t"][: P.get("sigma", 22)]
 SHAPE = P.get("shape", 0)
 SENTINEL = ["default"]
 TARGET = P.get("target")
